@@ -205,7 +205,13 @@ type refState struct {
 	frames [][]int // innermost LAST here
 	nact   int
 	ok     bool
+	div    string // signature of a known divergence of the engine from the specification (open finding)
 }
+
+const (
+	divMarkMark = "c06-gpos6-markmark"
+	divGsub8    = "c06-gsub8-forward-order"
+)
 
 func fits16(v int) bool      { return v >= -32768 && v <= 32767 }
 func glyphFits(g Glyph) bool { return fits16(g.X) && fits16(g.Y) && fits16(g.Adv) }
@@ -419,6 +425,75 @@ func (r *refShaper) simple(lk *Lookup, s *Sub, st *refState, a, b int) int {
 		seq[p] = ng2
 		st.ok = st.ok && ok2
 		return p + 1
+	case "r8":
+		for _, e := range s.Map {
+			if e[0] != g {
+				continue
+			}
+			if _, ok := r.matchSeq(lk, seq, pcovs(s.Covs), a-1, -1, -1); !ok {
+				return -1
+			}
+			if _, ok := r.matchSeq(lk, seq, pcovs(s.Covs3), a+1, len(seq), 1); !ok {
+				return -1
+			}
+			seq[a].GID = e[1]
+			return a + 1
+		}
+	case "mm":
+		var mk *MarkRec
+		for i := range s.Marks {
+			if s.Marks[i].G == g {
+				mk = &s.Marks[i]
+				break
+			}
+		}
+		if mk == nil {
+			return -1
+		}
+		rec := func(gid int) *BaseRec {
+			for i := range s.Bases {
+				if s.Bases[i].G == gid {
+					return &s.Bases[i]
+				}
+			}
+			return nil
+		}
+		// specification: the glyph preceding the mark under the lookup flags
+		q := a - 1
+		for q >= 0 && !r.keep(lk, seq[q].GID) {
+			q--
+		}
+		// the engine: the nearest preceding glyph with a mark2 record
+		qe := a - 1
+		for qe >= 0 && rec(seq[qe].GID) == nil {
+			qe--
+		}
+		if !(q == qe || (q >= 0 && qe < 0)) {
+			st.div = divMarkMark
+		}
+		if q < 0 {
+			return -1
+		}
+		m2 := rec(seq[q].GID)
+		if m2 == nil || mk.Cls >= len(m2.Anchors) || m2.Anchors[mk.Cls] == nil {
+			return -1
+		}
+		an := m2.Anchors[mk.Cls]
+		dx := an[0] - mk.X
+		for i := q; i < a; i++ {
+			dx -= seq[i].Adv
+		}
+		if seq[q].X != 0 || seq[q].Y != 0 {
+			st.div = divMarkMark // the engine drops mark2's own offset
+		}
+		ng := g0
+		ng.X = seq[q].X + dx
+		ng.Y = seq[q].Y + an[1] - mk.Y
+		seq[a] = ng
+		if !glyphFits(ng) {
+			st.ok = false
+		}
+		return a + 1
 	case "mb":
 		var mk *MarkRec
 		for i := range s.Marks {
@@ -632,7 +707,9 @@ func subStatic(s *Sub) bool {
 			}
 		}
 		return nodup(s.Cov) && nodup(cdKeys(s.CD)) && nodup(cdKeys(s.CD2))
-	case "mb":
+	case "r8":
+		return nodup(cdKeys(s.Map))
+	case "mb", "mm":
 		var mk, bk []int
 		for _, m := range s.Marks {
 			mk = append(mk, m.G)
@@ -676,6 +753,15 @@ func staticOK(ll []Lookup, gd *Gdef) bool {
 		if gd != nil && ll[i].Flags&flagMFS != 0 && ll[i].MFS >= len(gd.Sets) {
 			return false
 		}
+		nr := 0
+		for j := range ll[i].Subs {
+			if ll[i].Subs[j].Kind == "r8" {
+				nr++
+			}
+		}
+		if nr != 0 && nr != len(ll[i].Subs) {
+			return false // GSUB 8.1 subtables are not mixed with others
+		}
 	}
 	return true
 }
@@ -689,9 +775,71 @@ func cloneSeq(seq []Glyph) []Glyph {
 	return out
 }
 
-// Reference runs the reference shaper; inDomain tells whether the outcome is
-// defined by the specification and the documented decisions.
-func Reference(ll []Lookup, gd *Gdef, order []int, in []Glyph) (out []Glyph, inDomain bool) {
+// isReverse: all subtables of the lookup are GSUB 8.1.
+func isReverse(lk *Lookup) bool {
+	if len(lk.Subs) == 0 {
+		return false
+	}
+	for i := range lk.Subs {
+		if lk.Subs[i].Kind != "r8" {
+			return false
+		}
+	}
+	return true
+}
+
+// scanForward: the left-to-right scan of one lookup.
+func (r *refShaper) scanForward(lk *Lookup, seq []Glyph) (out []Glyph, ok bool, div string, capped bool) {
+	ok = true
+	pos := 0
+	for pos < len(seq) {
+		if !r.keep(lk, seq[pos].GID) {
+			pos++
+			continue
+		}
+		st := &refState{seq: seq, ok: true}
+		next := r.applyAt(actionBudget, lk, st, pos, 0)
+		seq = st.seq
+		ok = ok && st.ok
+		if st.div != "" && div == "" {
+			div = st.div
+		}
+		if next < 0 {
+			pos++
+			continue
+		}
+		if next <= pos {
+			// cannot happen in the reference; guard against a hang
+			ok = false
+			next = pos + 1
+		}
+		if len(seq) > sizeCap {
+			// sequences growing beyond the cap are outside the domain of
+			// the correspondence (coq/C06/Model.v size_cap)
+			return seq, false, div, true
+		}
+		pos = next
+	}
+	return seq, ok, div, false
+}
+
+// scanReverse: GSUB 8.1 lookups are processed from the end of the sequence.
+func (r *refShaper) scanReverse(lk *Lookup, seq []Glyph) []Glyph {
+	for pos := len(seq) - 1; pos >= 0; pos-- {
+		if !r.keep(lk, seq[pos].GID) {
+			continue
+		}
+		st := &refState{seq: seq, ok: true}
+		r.applyAt(actionBudget, lk, st, pos, 0)
+		seq = st.seq
+	}
+	return seq
+}
+
+// ReferenceFull runs the reference shaper.  hardOK: the outcome is defined by
+// the specification and the documented decisions; div: signature of a known
+// divergence of the engine from that outcome (open finding), "" if none.
+func ReferenceFull(ll []Lookup, gd *Gdef, order []int, in []Glyph) (out []Glyph, hardOK bool, div string) {
 	r := &refShaper{ll: ll, gd: gd}
 	seq := cloneSeq(in)
 	ok := staticOK(ll, gd)
@@ -705,32 +853,30 @@ func Reference(ll []Lookup, gd *Gdef, order []int, in []Glyph) (out []Glyph, inD
 			continue
 		}
 		lk := &ll[li]
-		pos := 0
-		for pos < len(seq) {
-			if !r.keep(lk, seq[pos].GID) {
-				pos++
-				continue
+		if isReverse(lk) {
+			fwd, _, _, _ := r.scanForward(lk, cloneSeq(seq))
+			seq = r.scanReverse(lk, seq)
+			if obsSx(fwd) != obsSx(seq) && div == "" {
+				div = divGsub8 // the engine scans forward
 			}
-			st := &refState{seq: seq, ok: true}
-			next := r.applyAt(actionBudget, lk, st, pos, 0)
-			seq = st.seq
-			ok = ok && st.ok
-			if next < 0 {
-				pos++
-				continue
-			}
-			if next <= pos {
-				// cannot happen in the reference; guard against a hang
-				ok = false
-				next = pos + 1
-			}
-			if len(seq) > sizeCap {
-				// sequences growing beyond the cap are outside the domain of
-				// the correspondence (coq/C06/Model.v size_cap)
-				return seq, false
-			}
-			pos = next
+			continue
+		}
+		var lok, capped bool
+		var ldiv string
+		seq, lok, ldiv, capped = r.scanForward(lk, seq)
+		ok = ok && lok
+		if ldiv != "" && div == "" {
+			div = ldiv
+		}
+		if capped {
+			return seq, false, div
 		}
 	}
-	return seq, ok
+	return seq, ok, div
+}
+
+// Reference: inDomain tells whether the engine is expected to agree.
+func Reference(ll []Lookup, gd *Gdef, order []int, in []Glyph) (out []Glyph, inDomain bool) {
+	out, ok, div := ReferenceFull(ll, gd, order, in)
+	return out, ok && div == ""
 }
